@@ -13,6 +13,7 @@ import MW.Lemmas.Sign
 import MW.Lemmas.SignVM
 import MW.Lemmas.SignVMEx
 import MW.Lemmas.SignSeq
+import MW.Lemmas.SignSound
 import MW.Model.SignTab
 namespace MW.Props.C03
 open MW.Model.Sign MW.Lemmas.Sign
@@ -372,6 +373,21 @@ theorem warmup_is_a_translation (W lt : Nat) (c : Model.Ledger.Cls) (h : Nat) (h
 
 example : seqOk .bind2 4294967294 = true ∧ seqOk .bind2 (2^64 - 1) = false ∧ seqOk (.stk 3) 4 = true ∧ seqOk (.stk 3) 3 = false := by decide
 example : (4294967294 : Nat) < 2^64 ∧ (3 : Nat) + 1 < 2^32 ∧ (10 : Nat) ≤ Gen.Vm.massip2WarmUpHeight := by decide
+
+/-- sign_success_facts: the SOUNDNESS converse of `sign_complete_vm` – a successful signTx (VM model as engine) implies for
+    EVERY input: it spends a template output, the returned witness' key hashes (through the 1-of-1 redeem script) to the script
+    hash of that output, the sequence rule of the class (incl. the MASSIP-2 class) holds for the input's sequence number and the
+    signature verifies against the signature hash of the redeem script: the hypotheses of `Signable` other than key possession
+    are NECESSARY. (64-bit sequence numbers, 32-byte script hashes, frozen periods below 2^32 − 1.) -/
+theorem sign_success_facts (K : Codec C) (env : Env C Bytes) (L : Lock C) (p : C.Pass) (fl : Flag)
+    (tx tx' : Tx (Witness C)) (h : (signTx (vmEngine K) env L p fl tx).2 = .ok tx')
+    (hseq : ∀ inp ∈ tx.ins, inp.seq < 2^64)
+    (hres : ∀ op po, env.resolve op = .ok po → po.addr.length = 32 ∧ ∀ f, po.cls = .stk f → f + 1 < 2^32) :
+    ∀ (j : Nat) (inp : TxIn (Witness C)), tx.ins[j]? = some inp →
+      ∃ po inp' w, env.resolve inp.prev = .ok po ∧ tx'.ins[j]? = some inp' ∧ inp'.wit = some w ∧
+        po.cls ≠ .other ∧ K.sha256 (redeem1 (K.encPK w.pk)) = po.addr ∧ seqOk po.cls inp.seq = true ∧
+        C.verify w.pk (K.sighash tx.strip j po.amt (redeem1 (K.encPK w.pk)) (flagByte w.flag)) w.sig = true :=
+  MW.Lemmas.SignSound.sign_success_facts K env L p fl tx tx' h hseq hres
 
 /-- THE DRIVER'S INSTANCE.  The `sec` driver answers `sign` / `autosign` ops by `signTx (tabEngine T) …` where, for every oracle
     table `T` (any list of tokens), `tabEngine T` is `vmEngine (tabCodec T)`: the script VM model over the tabled real bytes.
